@@ -9,7 +9,7 @@ from . import check_world as CW
 
 MODULES = {
     "C02": ["NSG.Properties.C02"],
-    "C03": ["NSG.Properties.C03"],
+    "C03": ["NSG.Properties.C03", "NSG.Properties.C03Loader"],
     "C08": ["NSG.Properties.C08"],
     "C11": ["NSG.Properties.C11"],
     "C12": ["NSG.Properties.C12"],
@@ -32,6 +32,7 @@ def main(prop, tier, replay=None):
             V.proof_fail(f)
     S = CW.Stats()
     fails_other = {}
+    coord_stats = {}
 
     def on_fail(p, sig, desc, rep):
         if p == prop:
@@ -51,6 +52,19 @@ def main(prop, tier, replay=None):
                 steps = 30 if quick else 60
             specs = CW.world_specs(rng, ngen)
             CW.run_walks(drv, rng, S, on_fail, specs, walks, steps, reachable_only=(prop in ("C11", "C12")))
+            if prop == "C12" and info.get("tables"):
+                # coordinator level: nothing an agent holds (view, counters, status, reward beyond the documented
+                # barrier outcome) may change because ANOTHER connection sent something
+                from . import check_coord as CC
+
+                def cfail(tags, sig, desc, rep):
+                    if "C12" in tags:
+                        V.fail("coord:" + sig, desc, rep)
+                    else:
+                        for t in tags:
+                            fails_other[t] = fails_other.get(t, 0) + 1
+                CC.run_sessions(drv, rng, info["tables"]["defender"], cfail, coord_stats, 60 if quick else 600, 40,
+                                {"burst": 0.2, "leave": 0.05, "bad": 0.03, "outcome_mix": True})
         finally:
             drv.close()
     nontriv = {"C02": len(S.one_guard_false), "C03": len(S.effective), "C08": S.reset_nontrivial,
@@ -65,6 +79,7 @@ def main(prop, tier, replay=None):
            "pre_true": S.pre_true, "pre_false": S.pre_false, "raised": S.raised, "scenario_loads": S.loads, "resets": S.resets,
            "single_false_guard_histogram": {f"{k[0]}#{k[1]}": v for k, v in sorted(S.guard_only_false.items())},
            "earlier_view_recomparisons": S.snap_checks,
+           "coordinator_session_events": coord_stats.get("events", 0),
            "out_of_scope_disagreements": fails_other, "proof_failures": V.proof_failures}
     write_evidence(prop, tier, "proof", cov, T.s(), nviol,
                    ["one read = one client message is irrelevant here: world-level check calls _execute_action directly",
